@@ -146,7 +146,7 @@ ClauseIds == {
  "C05.supply", "C05.cap_batch", "C05.asked", "C05.cap_fixed",
  "C06.accept", "C06.remaining", "C06.prefix", "C06.alloc",
  "C07.ok", "C07.reported",
- "C08.succ", "C08.create_status", "C08.open_at", "C08.close_at", "C08.finish_at", "C08.cancel_only", "C08.bid_status",
+ "C08.succ", "C08.refines", "C08.create_status", "C08.open_at", "C08.close_at", "C08.finish_at", "C08.cancel_only", "C08.bid_status",
  "C09.shares", "C09.no_schedule", "C09.release", "C09.once",
  "C10.listed", "C10.change_source", "C10.msg_rejected", "C10.switch",
  "C11.accept", "C11.effects", "C11.charge", "C11.no_delete", "C11.monotone",
@@ -166,7 +166,7 @@ ByProp == [
   C05 |-> {"C05.supply", "C05.cap_batch", "C05.asked", "C05.cap_fixed"},
   C06 |-> {"C06.accept", "C06.remaining", "C06.prefix", "C06.alloc"},
   C07 |-> {"C07.ok", "C07.reported"},
-  C08 |-> {"C08.succ", "C08.create_status", "C08.open_at", "C08.close_at", "C08.finish_at", "C08.cancel_only", "C08.bid_status"},
+  C08 |-> {"C08.succ", "C08.refines", "C08.create_status", "C08.open_at", "C08.close_at", "C08.finish_at", "C08.cancel_only", "C08.bid_status"},
   C09 |-> {"C09.shares", "C09.no_schedule", "C09.release", "C09.once"},
   C10 |-> {"C10.listed", "C10.change_source", "C10.msg_rejected", "C10.switch"},
   C11 |-> {"C11.accept", "C11.effects", "C11.charge", "C11.no_delete", "C11.monotone"},
@@ -336,6 +336,12 @@ Holds(c, step, g, g2) ==
            \/ (a = "StandBy" /\ b \in {"Started", "Cancelled"})
            \/ (a = "Started" /\ b \in {"Vesting", "Finished"})
            \/ (a = "Vesting" /\ b = "Finished")
+  [] c = "C08.refines" -> \A i \in 1..nPre :
+        LET a == pre.auctions[i] b == post.auctions[i]
+            rel == IF Len(a.sched) > 0 THEN Last(a.sched).t ELSE 0
+        IN LStep(a.status, Len(a.ends), Last(a.ends), a.start, a.type = "B", Len(a.sched) > 0, rel, a.maxExt,
+                 pre.params.extPeriod, m.a = "Block" /\ ok, IF m.a = "Block" THEN m.t ELSE 0,
+                 b.status, Len(b.ends), Last(b.ends))
   [] c = "C08.create_status" ->
         (m.a \in {"CreateFixed", "CreateBatch"} /\ ok) =>
            post.auctions[nPost].status = (IF m.start <= pre.now THEN "Started" ELSE "StandBy")
